@@ -259,41 +259,6 @@ def oracle(ctx, seeds=None):
                     res.fail('pipeline:%s:%s' % (bc['type'], side), "the %s boundary state of the 1D pipeline (%s, %r) is not the '%s' kernel applied to the reconstructed inner face state: component %d is %r, kernel gives %r" %
                              (side, model, cfg['scheme'], bc['type'], k, g_, e_), dict(cfg=cfg, side=side))
                     break
-    # ---- "every parameter set": the parameter dictionary in force WHEN THE OPERATOR IS EVALUATED (a back pressure or inlet total
-    #      pressure ramped between calls by updating the caller's dictionary in place)
-    for i in range(ctx.n(16, 160)):
-        kind = ['outsub', 'insub', 'outsub_nrcbc', 'insup', 'dirichlet', 'outsub_qtot', 'insub_cbc', 'outsub_rh'][i % 8]
-        cfg = _c1.rand_config(ctx.rng, model='euler', per=False, n=int(ctx.rng.integers(2, 7)), smooth=True, units=False, scheme=['extrapol1'])
-        W_ = cfg['prim']; right = bool(i % 2) if kind.startswith('out') or kind == 'dirichlet' else False
-        idx = -1 if right else 0
-        own = dict(_c1.euler_bc_params(ctx.rng, kind, cfg['gamma'], (W_[0][idx], W_[1][idx], W_[2][idx])))       # the caller's own dictionary
-        if 'prim' in own:
-            own['prim'] = list(own['prim'])
-        oth = {'type': 'outsup'}
-        def run():
-            mod = impl.pool('euler1d', gamma=cfg['gamma']); msh = _c1.make_mesh(cfg['mesh'])
-            disc = impl.modeldisc.fvm(mod, msh, impl.xnum.extrapol1(), numflux='hlle', bcL=oth if right else own, bcR=own if right else oth)
-            f = impl.field.fdata(mod, msh, [np.array(x, dtype=float) for x in mod.prim2cons([np.array(w, dtype=float) for w in W_])])
-            disc.rhs(f)
-            if 'p' in own: own['p'] = own['p'] * 0.85
-            if 'ptot' in own: own['ptot'] = own['ptot'] * 1.15
-            if 'prim' in own: own['prim'][0] = own['prim'][0] * 1.2
-            disc.rhs(f)
-            n_ = cfg['n']
-            ghost = [float((disc.pR if right else disc.pL)[k][n_ if right else 0]) for k in range(3)]
-            inner = [np.array([float((disc.pL if right else disc.pR)[k][n_ if right else 0])]) for k in range(3)]
-            exp = mod.namedBC(kind, 1 if right else -1, inner, dict(own))
-            return ghost, [float(np.ravel(np.asarray(x, dtype=float))[0]) for x in exp]
-        ok, out = impl.guarded(run)
-        res.case(('parameters-updated-in-place', kind, right))
-        rp = dict(kind='parameters-updated-in-place', bc=kind, side='right' if right else 'left', cfg=cfg)
-        if not ok:
-            res.fail('pipeline:%s:raised' % kind, out, rp); continue
-        ghost, exp = out
-        if not all(np.isfinite(exp)):
-            continue
-        if not all(abs(a_ - b_) <= 1e-12 * (abs(b_) + 1e-300) for a_, b_ in zip(ghost, exp)):
-            res.fail('pipeline:%s:parameters-updated-in-place' % kind, "after the caller updated its '%s' dictionary in place, the boundary state of the next evaluation is %r; the kernel with the dictionary now in force gives %r" % (kind, ghost, exp), rp)
     return res
 
 
